@@ -28,7 +28,7 @@ func TestMain(m *testing.M) { rt.Main(m) }
 var returnChecks atomic.Int64
 
 func scenario(t *testing.T, idx int64, r *rand.Rand) {
-	T := []time.Duration{50 * time.Millisecond, time.Second, time.Hour}[r.IntN(3)]
+	T := []time.Duration{50 * time.Millisecond, time.Second, time.Hour, -1}[r.IntN(4)] // -1: backlog time-out disabled
 	k := blk.Kind{Family: "queue", Ordering: []string{"fifo", "lifo", ""}[r.IntN(3)], Evict: r.IntN(2) == 0, Backlog: 1 + r.IntN(4), Timeout: T, Precise: r.IntN(2) == 0}
 	capacity := 1 + r.IntN(2)
 	yields := []int{0, 50, 2000}[r.IntN(3)]
@@ -155,7 +155,7 @@ func scenario(t *testing.T, idx int64, r *rand.Rand) {
 				w.Release(l, []string{"success", "ignore", "dropped"}[r.IntN(3)])
 				ops = append(ops, "release")
 				check("after-release")
-			case x == 11 && T < time.Hour: // release at the very instant the oldest blocked caller times out (give-up overlapping a hand-off)
+			case x == 11 && T > 0 && T < time.Hour: // release at the very instant the oldest blocked caller times out (give-up overlapping a hand-off)
 				var first *blk.Waiter
 				for _, wt := range w.Waiters {
 					if !wt.Done() {
